@@ -10,10 +10,13 @@ TB = ("Trusted base: Lean 4.33 kernel; axioms propext/Classical.choice/Quot.soun
 
 HIST_NOTE = TB + (" The sequential model M1/M3 (lean/TriompheModel/Model/{Heap,Handles,Ops}.lean) is hand-written, mirroring the Rust function by function, "
                   "and is tied to the code by the history correspondence (same op lines on the Lean driver and on the real crate; outputs compared; "
-                  "property monitors evaluated on the implementation's own trace), in the dev and the release profile, with sized, over-aligned, dyn and zero-sized "
+                  "property monitors evaluated on the implementation's own trace — among them the monitor written in Lean (Model/Monitor.lean, exe drv_mon) "
+                  "for which `M1.monitor_accepts_model` is proved: it accepts every trace of the model, for every history —), in the dev and the release profile, with sized, over-aligned, dyn and zero-sized "
                   "payloads (a ZST build of the harness), comparison/hash/format ops with armed panics, scripted panics in every user callback. "
                   "Payload universe of the correspondence: the harness's identity-tracked types.")
-SCHED_NOTE = " Schedule half: assumed, not derived: Consistent (RC11/C++20 fragment for a location written only by RMWs), CoRW, ViaBorn, Protocol (safe-Rust ownership discipline)."
+SCHED_NOTE = (" Schedule half: assumed, not derived: Consistent (RC11/C++20 fragment for a location written only by RMWs), CoRW, ViaBorn, Protocol "
+              "(safe-Rust ownership discipline), MutExcl (&mut exclusivity, for the later-sharers theorems). Concrete executions are checked by the "
+              "proved-sound Boolean checkers of WM/FinExec.lean; the model-side search (WM/Search.lean, exe drv_wm) over a template family is a search, not a theorem.")
 
 
 def hist(technique, text, ref, extra=""):
@@ -30,7 +33,7 @@ CLAIMS = {
         design_ref="DESIGN.md §2 M4, §6 C02",
         note=TB + SCHED_NOTE),
     "C03": hist("Lean 4 proof: gate ops grant iff count word = 1 and leave the state unchanged on decline (M1) + weak-memory theorem unique_verdict_exclusive at gate facts re-extracted from source; correspondence + Miri search",
-                "History half: per-gate theorems over M1 (get_mut, get_unique, is_unique, try_unique/TryFrom, try_unwrap, deprecated write/as_mut_slice, ThinArc::with_arc_mut∘get_mut) with count = owners from the invariant; tied by the history correspondence with co-owners of every kind. Schedule half: for every consistent execution, an Acquire gate load returning 1 is happens-after every access through every other handle; the obligation that every load reachable from each gate is Acquire and compared with 1 is discharged on translator output of this run.",
+                "History half: per-gate theorems over M1 (get_mut, get_unique, is_unique, try_unique/TryFrom, try_unwrap, deprecated write/as_mut_slice, ThinArc::with_arc_mut∘get_mut) with count = owners from the invariant; tied by the history correspondence with co-owners of every kind. Schedule half: for every consistent execution, an Acquire gate load returning 1 is happens-after every access through every other handle that existed (former sharers), and every handle created later is born after the granted write (later sharers, WM/Later.lean: no access through another handle is concurrent with the write); the obligation that every load reachable from each gate is Acquire and compared with 1 is discharged on translator output of this run.",
                 "DESIGN.md §2 M1/M4, §6 C03", SCHED_NOTE),
     "C04": hist("Lean 4 proof: count word = owners in every reachable state incl. inside callbacks (invariant), per-op owner deltas; differential correspondence reading the count through every accessor after every op",
                 "Theorems over M1: each clone-style op adds exactly one owner of that block, each release removes one, conversions/borrows/gates are neutral, and the count word equals the number of owning handle values (Inv) after every op of every history. The correspondence prints the count through every accessor of every slot after every op (and inside callback scripts) for the real library and compares with the model; the monitor recomputes owners from the implementation's own slot table.",
@@ -52,7 +55,7 @@ CLAIMS = {
                 "Theorems over M3/M1 quantify over all scripts (reported lengths and hints changing between calls, panic position) and all callback scripts; the correspondence injects a panic at every k-th call and every (reported, actual) pair with difference <= 2 on the real library, with identity-tracked payloads and a tracking allocator detecting double drops, uninitialised reads and leaks.",
                 "DESIGN.md §2 M3, §6 C07"),
     "C08": hist("Lean 4 proof: make_mut on sole owner = identity, on shared = one Clone + fresh block + one decrement (M1); schedule half via the Acquire gate theorem; correspondence + Miri search",
-                "Per-op theorems for Arc::make_mut / make_unique / OffsetArc::make_mut in any memory; with the invariant, sole owner = owners 1. The correspondence checks allocation identity, clone events and that other handles keep observing the old value, for co-owners of every kind.",
+                "Per-op theorems for Arc::make_mut / make_unique / OffsetArc::make_mut in any memory; with the invariant, sole owner = owners 1. The correspondence checks allocation identity, clone events and that other handles keep observing the old value, for co-owners of every kind, and the same verdict over payload classes (no drop glue with an observable Clone, drop glue, zero-sized, over-aligned, large) in both profiles. Schedule half: the in-place write is concurrent with no access through another handle (C08_in_place_write_races_with_nothing).",
                 "DESIGN.md §6 C08", SCHED_NOTE),
     "C09": hist("Lean 4 proof: try_unique/try_unwrap/into_inner move out iff count word = 1 without destructor and with one dealloc, else same handle (M1); weak-memory theorems consume_unique / consume_excludes_destroy; correspondence + Miri search",
                 "History half: per-op theorems in any memory. Schedule half: for every consistent execution at most one thread's unwrapping gate succeeds, and then no destruction exists (WM/Consume.lean), at the gate facts of this run.",
@@ -65,7 +68,7 @@ CLAIMS = {
                 "DESIGN.md §6 C12"),
     "C13": dict(
         technique="Lean 4 decision procedure (model of rustc auto-trait resolution and signature-level outlives) over impl/signature tables re-extracted from source by a translator; rustc probe programs as the implementation-side correspondence",
-        text="For every handle kind and every class assignment of its type parameters the model's Send/Sync verdict equals 'all payloads Send+Sync' (UniqueArc: Send iff Send, Sync iff Sync), proved by decide over the tables regenerated from /repo/src on this run, with a general lemma that the class abstraction is complete for the extracted bound language; every borrow-returning signature is region-bounded and every callback bound higher-ranked. ~550 probe programs compiled against the current crate must be accepted/rejected as the property demands and as the model predicts. The lifetime half is PARTIAL: signature-level rule + probes, not a model of the borrow checker.",
+        text="For every handle kind and every class assignment of its type parameters the model's Send/Sync verdict equals 'all payloads Send+Sync' (UniqueArc: Send iff Send, Sync iff Sync), proved by decide over the tables regenerated from /repo/src on this run, with a general lemma that the class abstraction is complete for the extracted bound language; every borrow-returning signature is region-bounded and every callback bound higher-ranked. ~600 probe programs (incl. the safe `unsize` front end of CoerciblePtr) compiled against the current crate must be accepted/rejected as the property demands and as the model predicts. The lifetime half is PARTIAL: signature-level rule + probes, not a model of the borrow checker.",
         design_ref="DESIGN.md §2 M7, §6 C13",
         note=TB + " rustc is the oracle for probes; two rustc rules are modelled, not verified."),
     "C14": dict(
@@ -78,7 +81,7 @@ CLAIMS = {
                 "DESIGN.md §6 C15"),
     "C16": dict(
         technique="Lean 4 proof over BitVec 64 (and parametric width) of the clone guard built from constants/operator/abort implementation re-extracted from source; child-process correspondence presetting the count",
-        text="For every count word w: the clone terminates the process iff w > isize::MAX, else returns w+1 without wrap; for every sequence of clone/drop/forget the word never wraps while a handle exists; with n clones in flight it stays below 2^bits. Obligations on the generated guard facts (operator, constant, abort in std and no_std not catchable, every clone path funnels into Arc::clone) are decide on translator output of this run. 287 child processes (12 clone entry points x start counts x std/no_std) are compared with the model.",
+        text="For every count word w: the clone terminates the process iff w > isize::MAX, else returns w+1 without wrap; for every sequence of clone/drop/forget the word never wraps while a handle exists; with n clones in flight it stays below 2^bits. Obligations on the generated guard facts (operator, constant, abort in std and no_std not catchable, every clone path funnels into Arc::clone) are decide on translator output of this run. ~450 child processes (20 clone entry points incl. over-aligned payloads and handles produced by arc-swap x start counts x std/no_std x dev/release) are compared with the model.",
         design_ref="DESIGN.md §2 M6, §6 C16",
         note=TB),
     "C17": dict(
